@@ -187,3 +187,90 @@ func ZZ_C07_deferred_removal() {
 	got2, gerr2 := db.Get(k2, nil)
 	vpAssert(gerr2 == nil && len(got2) == 1 && got2[0] == v2[0], "committed-write-readable")
 }
+
+// C20-tr: a value returned by Transaction.Get is the caller's own copy, from
+// the transaction's write buffer as well as from a table it flushed:
+// overwriting it changes neither later reads nor what Commit stores.
+func ZZ_C20_trget() {
+	mem := storage.NewMemStorage()
+	s := zzSession(mem, 64<<20)
+	s.setOptions(&opt.Options{Compression: opt.NoCompression, WriteBuffer: 64})
+	s.tops = newTableOps(s)
+	vpAssert(s.create() == nil, "setup-create")
+	db := &DB{
+		s:           s,
+		seq:         10,
+		snapsList:   list.New(),
+		memPool:     make(chan *memdb.DB, 1),
+		writeLockC:  make(chan struct{}, 1),
+		closeC:      make(chan struct{}),
+		compPerErrC: make(chan error),
+		compErrC:    make(chan error),
+	}
+	db.mem = &memDB{db: db, DB: memdb.New(s.icmp, 64), ref: 1}
+	k := []byte{vpNondetU8()}
+	v := []byte{vpNondetU8(), vpNondetU8()}
+	want := append([]byte(nil), v...)
+	tr, err := db.OpenTransaction()
+	vpAssert(err == nil, "open-ok")
+	vpAssert(tr.Put(k, v, nil) == nil, "tr-put-ok")
+	vpHavoc(v) // the argument may be reused after Put returns
+	if vpChoose(2) == 1 {
+		vpAssert(tr.flush() == nil, "tr-flush-ok") // read from the flushed table instead of the buffer
+	}
+	got, gerr := tr.Get(k, nil)
+	vpAssert(gerr == nil && len(got) == 2 && vpEqBytes(got, want), "tr-get-returns-the-stored-value")
+	vpHavoc(got)
+	got2, gerr2 := tr.Get(k, nil)
+	vpAssert(gerr2 == nil && len(got2) == 2 && vpEqBytes(got2, want), "tr-get-result-is-a-private-copy")
+	vpAssert(tr.Commit() == nil, "commit-ok")
+	got3, gerr3 := db.Get(k, nil)
+	vpAssert(gerr3 == nil && len(got3) == 2 && vpEqBytes(got3, want), "committed-value-independent-of-caller-buffers")
+}
+
+// C03-tr: an iterator taken from a transaction is a frozen view too: later
+// writes to the transaction, including the internal flush when its buffer
+// fills, change nothing it shows.
+func ZZ_C03_tr_iter_frozen() {
+	mem := storage.NewMemStorage()
+	s := zzSession(mem, 64<<20)
+	s.setOptions(&opt.Options{Compression: opt.NoCompression, WriteBuffer: 64, DisableSeeksCompaction: true})
+	s.tops = newTableOps(s)
+	vpAssert(s.create() == nil, "setup-create")
+	db := &DB{
+		s:           s,
+		seq:         10,
+		snapsList:   list.New(),
+		memPool:     make(chan *memdb.DB, 1),
+		writeLockC:  make(chan struct{}, 1),
+		closeC:      make(chan struct{}),
+		compPerErrC: make(chan error),
+		compErrC:    make(chan error),
+	}
+	db.mem = &memDB{db: db, DB: memdb.New(s.icmp, 64), ref: 1}
+	k1, v1 := []byte{vpNondetU8()}, []byte{vpNondetU8()}
+	k2, v2 := []byte{vpNondetU8()}, []byte{vpNondetU8()}
+	tr, err := db.OpenTransaction()
+	vpAssert(err == nil, "open-ok")
+	vpAssert(tr.Put(k1, v1, nil) == nil, "tr-put-ok")
+	it := tr.NewIterator(nil, nil)
+	// later activity in the same transaction
+	if vpChoose(2) == 1 {
+		vpAssert(tr.flush() == nil, "tr-flush-ok")
+	}
+	if vpChoose(2) == 1 {
+		vpAssert(tr.Put(k2, v2, nil) == nil, "tr-put2-ok")
+	} else {
+		vpAssert(tr.Delete(k1, nil) == nil, "tr-delete-ok")
+	}
+	if vpChoose(2) == 1 {
+		vpAssert(tr.flush() == nil, "tr-flush2-ok")
+	}
+	// the iterator still shows exactly the one pair that existed when it was made
+	vpAssert(it.First(), "frozen-view-has-its-pair")
+	vpAssert(len(it.Key()) == 1 && it.Key()[0] == k1[0] && len(it.Value()) == 1 && it.Value()[0] == v1[0], "frozen-view-pair-unchanged")
+	vpAssert(!it.Next(), "frozen-view-has-nothing-newer")
+	vpAssert(it.Error() == nil, "no-error")
+	it.Release()
+	tr.Discard()
+}
